@@ -10,8 +10,9 @@ SPEC = {
             "(both closed, or one side a variable); ljust/rjust(_crop), extend_crop, crop with widths 0..12 around the actual "
             "length and fill characters from the grammar. Judged: TRUE/FALSE exactly per the relation; every proposed "
             "replacement is a valid tree for the argument's nonterminal satisfying the relation. distinct = distinct "
-            "(predicate, argument strings, numeric args, outcome class)",
-    "minimum": {"quick": {"count_judged": 1000, "octal_judged": 500, "just_judged": 1000, "crop_judged": 300, "proposals_judged": 500, "width_zero_judged": 50},
+            "(predicate, argument strings, numeric args, outcome class); plus an in-situ slice: the count(...) calls the solver "
+            "and its check() make themselves on documented count families",
+    "minimum": {"quick": {"count_judged": 1000, "octal_judged": 500, "just_judged": 1000, "crop_judged": 300, "proposals_judged": 500, "width_zero_judged": 50, "insitu_closed_judged": 10},
                 "thorough": {"count_judged": 20000, "octal_judged": 10000, "just_judged": 20000, "crop_judged": 6000}},
     "assumptions": ["calls outside a predicate's documented domain (non-crop just with len > width, extend_crop on non-homogeneous "
                     "strings, fill characters the nonterminal cannot derive) are executed but only recorded",
@@ -181,6 +182,60 @@ def judge_just(ctx, graph, rng):
     ctx.held((name, nt, L, width, fill if name not in ("crop", "extend_crop") else "", o), sample={**wit, "result": str(r)[:80]})
 
 
+def insitu_slice(ctx, rng):
+    """count(...) calls the solver itself makes while solving the documented count families: closed argument trees are
+    judged exactly; a proposed completion of an open tree must hold exactly the requested number of needles"""
+    from islamon import insitu
+    from isla.derivation_tree import DerivationTree
+    from isla.language import Variable
+    fam, gname, g, log = insitu.solver_workload(ctx, rng, ["sem_pred"], nsolve=3, random_share=0.15,
+                                                families={"count-literal", "count-existsint", "count-nest", "conj", "disj", "lines-count"})
+    m = G(g)
+    seen = set()
+    for name, graph, args, negate, r in log["sem_pred"][:400]:
+        if name != "count" or negate or len(args) != 3 or not isinstance(args[0], DerivationTree) or not isinstance(args[1], str):
+            ctx.count("insitu_not_judged")
+            continue
+        in_tree, needle, num = args
+        occ = sum(1 for _, n in nodes(in_tree) if lab(n) == needle)
+        closed = all(kids(n) is not None for _, n in nodes(in_tree))
+        numv = None if isinstance(num, Variable) else (num if isinstance(num, str) else num.value)
+        sig = (str(in_tree), closed, needle, numv)
+        if sig in seen:
+            continue
+        seen.add(sig)
+        ctx.ev()
+        o = outcome(r)
+        wit = {"pred": "count", "in_situ": fam, "grammar": g, "tree": to_list(in_tree), "needle": needle, "num": numv}
+        if closed:
+            if numv is None:
+                (k, v), = r.result.items() if o == "PROPOSAL" else [(None, None)]
+                if o != "PROPOSAL" or str(v.value) != str(occ):
+                    ctx.violation(None, f"count with variable [in situ]: {r} but the needle occurs {occ} times", wit)
+                    continue
+            else:
+                try:
+                    exp = "TRUE" if occ == int(numv) else "FALSE"
+                except ValueError:
+                    continue
+                if o != exp:
+                    ctx.violation(None, f"count [in situ]: {o}, occurrences {occ}, requested {numv}", wit)
+                    continue
+            ctx.count("insitu_closed_judged")
+            ctx.held(("count", "in-situ-closed", gname, needle, o))
+        elif o == "PROPOSAL" and numv is not None:
+            (k, v), = r.result.items()
+            got = sum(1 for _, n in nodes(v) if lab(n) == needle)
+            bad = m.valid_tree(v, lab(in_tree), allow_open=True)
+            if bad or got != int(numv):
+                ctx.violation(None, f"count proposal [in situ]: {bad or f'{got} needles, requested {numv}'}", {**wit, "proposal": to_list(v)})
+                continue
+            ctx.count("insitu_proposals_judged")
+            ctx.held(("count", "in-situ-proposal", gname, needle, min(got, 6)))
+        else:
+            ctx.count("insitu_open_not_judged")
+
+
 def run(ctx):
     import grammar_graph.gg as gg
     rng = ctx.rng
@@ -188,7 +243,9 @@ def run(ctx):
     tgraph = gg.GrammarGraph.from_grammar(TEXT_G)
     while ctx.running():
         x = rng.random()
-        if x < 0.35:
+        if rng.random() < 0.0006:
+            insitu_slice(ctx, rng)
+        elif x < 0.35:
             judge_count(ctx, cgraph, rng)
         elif x < 0.55:
             judge_octal(ctx, rng)
